@@ -106,6 +106,25 @@ def thorough_extras(prop, mod, arg, seed, res):
         res.floors.append(("release profile: " + n, m, fl))
     res.inventory["release_profile"] = {"facts_file": os.path.basename(rfacts.path), "obligations": rres.obligations, "discharged": rres.discharged,
                                         "findings": [f["key"] for f in rres.findings]}
+    # (a2) the same analysis with state merging disabled (pure trace partitioning): the verdicts must agree
+    if True:
+        os.environ["H8_NO_MERGE"] = "1"
+        try:
+            nres = Result(prop)
+            dfacts = factsmod.load("dev")
+            mod.run({"facts": dfacts, "tier": "thorough", "seed": seed, "prop": prop, "arg": arg}, nres)
+        finally:
+            del os.environ["H8_NO_MERGE"]
+        base_keys = set(f["key"] for f in res.findings if "[release profile only]" not in f["msg"])
+        nk = set(f["key"] for f in nres.findings)
+        res.ob(nk == base_keys)
+        if nk != base_keys:
+            res.errors.append("merged and unmerged analyses disagree: only merged %r, only unmerged %r" % (sorted(base_keys - nk)[:4], sorted(nk - base_keys)[:4]))
+        for e in nres.errors:
+            res.errors.append("unmerged analysis: " + e)
+        res.obligations += nres.obligations
+        res.discharged += nres.discharged
+        res.inventory["unmerged_analysis"] = {"obligations": nres.obligations, "discharged": nres.discharged, "findings": sorted(nk)}
     # (b) mutation controls on scratch copies
     idxp = os.path.join(VERIF, "selftest", "index.json")
     if not os.path.exists(idxp):
